@@ -577,9 +577,10 @@ package graph
 // ---- completeness of Kahn's algorithm: it gives up only on graphs that have no ranking ------------------------------
 // every node whose dependency count reached zero was queued; whatever was queued is still waiting or has been placed
 //@ pred kahnZeroQueued(g *DependencyGraph, depCounts map[NodeKey]int, enq set[NodeKey]) = forall k NodeKey :: k in g.nodes && depCounts[k] == 0 ==> enq[k]
-// (qi[k] = how many keys were queued before k, QL = how many were queued in all, h = how many were taken out again: the queue is the part [h, QL) of that history)
-//@ pred kahnQueuedHeld(queue []NodeKey, enq set[NodeKey], placed set[NodeKey], qi fmap[NodeKey]int, QL int, h int) = len(queue) == QL - h && h >= 0
-//@   && (forall k NodeKey :: enq[k] ==> 0 <= qi[k] && qi[k] < QL && (qi[k] >= h ==> queue[qi[k] - h] == k) && (qi[k] < h ==> placed[k]))
+// (where[k] = the position of k in the queue while k is waiting there; when an element is taken out - from whichever end - the elements
+// behind it move up by one and the others stay: the bookkeeping does not depend on the queue discipline)
+//@ pred kahnQueuedHeld(queue []NodeKey, enq set[NodeKey], placed set[NodeKey], where fmap[NodeKey]int) =
+//@      forall k NodeKey :: enq[k] && !placed[k] ==> 0 <= where[k] && where[k] < len(queue) && queue[where[k]] == k
 // every Dependents entry of a placed node has discharged the occurrence it stands for (for the node being placed: the entries below lim)
 //@ pred kahnAllDischarged(g *DependencyGraph, P fmap[NodeKey]fmap[int]bool, m fmap[NodeKey]fmap[int]int, placed set[NodeKey], cur NodeKey, lim int) =
 //@      forall c NodeKey, j int :: placed[c] && 0 <= j && j < len(g.nodes[c].Dependents) && (c != cur || j < lim) ==> P[g.nodes[c].Dependents[j]][m[c][j]]
@@ -639,14 +640,10 @@ package graph
 //@   at after call g.updateDegrees#1 : assert[C06] lists_recomputed by(dependents_sound, dependents_complete, deps_mirror_edges, dependents_matched_with_edge_occurrences, every_edge_occurrence_has_its_entry):
 //@        dependentsOK(g) && depsMirrorEdges(g) && matchOK(g, m) && matchInj(g, m) && matchSurj(g, m, mi)
 //@   ghost U set[NodeKey]
-//@   ghost qi fmap[NodeKey]int
-//@   ghost QL int
-//@   ghost h int
-//@   at after assign queue#2 : ghost qi[key] := QL
-//@   at after assign queue#2 : ghost QL := QL + 1
-//@   at after assign queue#3 : ghost h := h + 1
-//@   at after assign queue#4 : ghost qi[dependent] := QL
-//@   at after assign queue#4 : ghost QL := QL + 1
+//@   ghost where fmap[NodeKey]int
+//@   at after assign queue#2 : ghost where[key] := len(queue) - 1
+//@   at after assign queue#3 : ghost where := mapof k NodeKey :: where[k] - ite(where[k] > where[current], 1, 0)
+//@   at after assign queue#4 : ghost where[dependent] := len(queue) - 1
 //@   at after assign queue#2 : ghost enq[key] := true
 //@   at after assign result#3 : ghost placed[current] := true
 //@   at after assign result#3 : ghost pos[current] := len(result) - 1
@@ -697,7 +694,7 @@ package graph
 //@     invariant queued: kahnQueue(g, queue, depCounts, enq, placed) && (forall k NodeKey :: !placed[k])
 //@     invariant queued_are_seen: forall k NodeKey :: enq[k] ==> seen[k]
 //@     invariant zero_queued: forall k NodeKey :: seen[k] && (k in g.nodes) && depCounts[k] == 0 ==> enq[k]
-//@     invariant queued_held: kahnQueuedHeld(queue, enq, placed, qi, QL, h)
+//@     invariant queued_held: kahnQueuedHeld(queue, enq, placed, where)
 //@   loop 3
 //@     invariant queue_in_nodes: forall i int :: 0 <= i && i < len(queue) ==> (queue[i] in g.nodes)
 //@     invariant counts_for_nodes: forall k NodeKey :: (k in depCounts) <==> (k in g.nodes)
@@ -710,7 +707,7 @@ package graph
 //@     invariant queued: kahnQueue(g, queue, depCounts, enq, placed)
 //@     invariant ordered: kahnOrdered(result, pos, placed)
 //@     invariant zero_queued: kahnZeroQueued(g, depCounts, enq)
-//@     invariant queued_held: kahnQueuedHeld(queue, enq, placed, qi, QL, h)
+//@     invariant queued_held: kahnQueuedHeld(queue, enq, placed, where)
 //@     invariant all_discharged: forall c NodeKey, j int :: placed[c] && 0 <= j && j < len(g.nodes[c].Dependents) ==> P[g.nodes[c].Dependents[j]][m[c][j]]
 //@   loop 4
 //@     invariant queue_in_nodes: forall i int :: 0 <= i && i < len(queue) ==> (queue[i] in g.nodes)
@@ -725,7 +722,7 @@ package graph
 //@     invariant placed_nodes: kahnPlaced(g, result, placed, pos)
 //@     invariant queued by(queued, dependent_not_yet_queued, entry_stands_for_an_occurrence): kahnQueue(g, queue, depCounts, enq, placed)
 //@     invariant zero_queued: kahnZeroQueued(g, depCounts, enq)
-//@     invariant queued_held: kahnQueuedHeld(queue, enq, placed, qi, QL, h)
+//@     invariant queued_held: kahnQueuedHeld(queue, enq, placed, where)
 //@     invariant all_discharged: kahnAllDischarged(g, P, m, placed, current, idx)
 //
 // ---- depths -------------------------------------------------------------------------------------------------------
